@@ -196,7 +196,11 @@ private:
 
                 if( isdigit( ch ))
                 {
-                    buf[ k++ ] = static_cast< char >( ch );
+                    // keep the terminating 0 inside buf: digits beyond its capacity are dropped
+                    if( k < sizeof( buf ) - 1 )
+                    {
+                        buf[ k++ ] = static_cast< char >( ch );
+                    }
                 }
                 else if( k )
                 {
